@@ -179,6 +179,16 @@ Definition exec_item (limit : Z) (st : state) (i : item) : outcome state :=
   | Work ks => bind (run_ops limit st (map op_of ks)) (fun st' => run_ops limit st' (rev (map undo_of ks)))
   end.
 
+(* A host callable that renders a block / calls a macro through &mut State and swallows the error
+   (state.render_block(name).unwrap_or_default()): when the nested render is refused the caller goes on
+   with its own context - push_frame / incr_depth have undone their increment, a refused call_block
+   never reaches charge_depth nor decr_depth. *)
+Definition exec_try (limit : Z) (st : state) (ks : list kind) : outcome state :=
+  match exec_item limit st (Work ks) with
+  | Err _ => Ok st
+  | o => o
+  end.
+
 Definition is_probe (i : item) : Z := match i with Probe => 1 | _ => 0 end.
 
 (* one pass over a list of items; counts the probes passed *)
